@@ -126,8 +126,28 @@ class Path:
 STATS = {'sat_calls': 0, 'solver_s': 0.0}
 
 
+_QCACHE = {}
+PRUNE_QUANTIFIER_FREE = [False]      # set by a contract (prune_quantifier_free=True): pruning looks at the quantifier-free facts only
+
+
+def _has_quantifier(f):
+    k = f.get_id()
+    if k in _QCACHE: return _QCACHE[k]
+    stack = [f]; seen = set(); r = False
+    while stack:
+        t = stack.pop()
+        if t.get_id() in seen: continue
+        seen.add(t.get_id())
+        if z3.is_quantifier(t): r = True; break
+        stack.extend(t.children())
+    _QCACHE[k] = r
+    return r
+
+
 def sat(pc, timeout_ms=800):
-    """Feasibility pruning: unknown counts as feasible (sound for proving)."""
+    """Feasibility pruning: unknown counts as feasible (sound for proving).  With PRUNE_QUANTIFIER_FREE only the quantifier-free facts are
+    consulted: fewer infeasible paths are recognised (their obligations are then discharged with an unsatisfiable path condition), none is lost."""
+    if PRUNE_QUANTIFIER_FREE[0]: pc = [f for f in pc if not _has_quantifier(f)]
     s = z3.Solver(); s.set('timeout', timeout_ms); s.add(*pc)
     t = time.time(); r = s.check()
     STATS['sat_calls'] += 1; STATS['solver_s'] += time.time() - t
@@ -939,9 +959,37 @@ class Executor:
         for q, c in self.ev(st.test, p):
             if isinstance(c, Exc):
                 res.append(('raise', q, c)); continue
-            for q2, b in self.branch_on_truth(c, q):
+            branches = list(self.branch_on_truth(c, q))
+            if len(branches) == 2 and getattr(self.c, 'merge_set_branches', False):
+                outs = [(b, q2, self.block(st.body if b else st.orelse, [q2])) for q2, b in branches]
+                m = self._merge_set_branches(q, outs)
+                if m is not None: res.append(m)
+                else:
+                    for _, _, o in outs: res += o
+                continue
+            for q2, b in branches:
                 res += self.block(st.body if b else st.orelse, [q2])
         return res
+
+    def _merge_set_branches(self, q, outs):
+        """state merging for a two-way conditional whose branches both fall through, add no facts and differ only in set-valued locals:
+        one path with if-then-else set values instead of two (same semantics, fewer paths)"""
+        if any(len(o) != 1 or o[0][0] != 'fall' for _, _, o in outs): return None
+        (b1, e1, [(_, r1, _)]), (b2, e2, [(_, r2, _)]) = outs
+        if r1.exact != r2.exact or r1.exact != q.exact or r1.ghost != r2.ghost: return None
+        if len(e1.pc) != len(q.pc) + 1 or len(e2.pc) != len(q.pc) + 1 or set(r1.env) != set(r2.env): return None
+        cond = e1.pc[-1] if b1 else e2.pc[-1]
+        rt, rf = (r1, r2) if b1 else (r2, r1)
+        n = len(q.pc) + 1
+        # facts a branch added: (P and c and X1) or (P and not c and X2)  ==  P and (c -> X1) and (not c -> X2)
+        extra = [z3.Implies(cond, f) for f in rt.pc[n:]] + [z3.Implies(z3.Not(cond), f) for f in rf.pc[n:]]
+        env = {}
+        for k in rt.env:
+            a, b = rt.env[k], rf.env[k]
+            if a is b: env[k] = a
+            elif a.sort == 'set' and b.sort == 'set': env[k] = SetV(z3.If(cond, a.t, b.t))
+            else: return None
+        return ('fall', Path(env, list(q.pc) + extra, q.exact, rt.ghost), None)
 
     def st_Try(self, st, p):
         if st.finalbody: raise Unsupported(f'{self.qualname}:{st.lineno} try/finally')
